@@ -44,6 +44,21 @@ Section C14.
     snd (step c (exec c init ops) (Cmp X)) = cmp_of_ref P Prm V lib_cmp c r X.
   Proof. exact (compare_functional_no_kernel P Prm V lib_cmp lib_fit_fails lib_sort lib_stack). Qed.
 
+  (** The reference compare works against is the argument of the last fit call that returned (np.sort of it
+      for the streaming KS test); compare and update never replace it; reset clears it. *)
+  Theorem C14_reference_is_last_fit : forall c s,
+    (forall X, snd (step c s (Fit X)) = Ok ONone ->
+       eff_ref P Prm c (fst (step c s (Fit X))) =
+         Some (match d_family (describe (c_cls Prm c)) with FIKS => lib_sort X | _ => X end)) /\
+    (forall o, is_fit P o = false -> o <> Rst -> eff_ref P Prm c (fst (step c s o)) = eff_ref P Prm c s) /\
+    eff_ref P Prm c (fst (step c s Rst)) = None.
+  Proof.
+    intros c s. split; [|split].
+    - intros X. exact (fit_sets_reference P Prm V lib_cmp lib_fit_fails lib_sort lib_stack c s X).
+    - intros o. exact (reference_changes_only_by_fit_reset P Prm V lib_cmp lib_fit_fails lib_sort lib_stack c s o).
+    - exact (reset_clears_reference P Prm V lib_cmp lib_fit_fails lib_sort lib_stack c s).
+  Qed.
+
   (** Repeating a compare call gives the same outcome and state. *)
   Theorem C14_compare_repeatable : forall c s X, step c (fst (step c s (Cmp X))) (Cmp X) = step c s (Cmp X).
   Proof. exact (compare_repeatable P Prm V lib_cmp lib_fit_fails lib_sort lib_stack). Qed.
@@ -221,6 +236,7 @@ Print Assumptions C14_compare_pure.
 Print Assumptions C14_compare_erasable.
 Print Assumptions C14_compare_functional.
 Print Assumptions C14_compare_functional_no_kernel.
+Print Assumptions C14_reference_is_last_fit.
 Print Assumptions C14_compare_repeatable.
 Print Assumptions C14_compare_commute.
 Print Assumptions C14_needs_fit.
